@@ -20,6 +20,7 @@ FULL = ['A', 'B', 'U', 'R', 'SQ', 'DQ', 'SP', 'TAB', 'NL', 'CR', 'DOT', 'ANSI', 
 SPACES = {
     # (label, alphabet, MaxGot, MaxWant)
     'quick': [('all-tokens', FULL, 2, 2),
+              ('blank-lines', ['A', 'NL', 'BL', 'SP'], 3, 3),
               ('wildcards', ['A', 'SP', 'SQ', 'ELL'], 3, 4)],
     'thorough': [('all-tokens', FULL, 2, 2),
                  ('nine-tokens', ['A', 'U', 'SQ', 'SP', 'TAB', 'NL', 'CR', 'ANSI', 'BL'], 3, 3),
@@ -126,6 +127,11 @@ def run(tier):
             r = rng.random()
             if r < 0.3 and w:
                 i = rng.randrange(len(w)); j = min(len(w), i + rng.randint(0, 3)); w[i:j] = ['ELL']
+            elif r < 0.38:
+                # an empty line of the got written as the marker (first line, middle, last line)
+                spots = [i for i in range(len(w) + 1) if (i == 0 or w[i - 1] == 'NL') and (i == len(w) or w[i] == 'NL')]
+                if spots:
+                    w.insert(rng.choice(spots), 'BL')
             elif r < 0.5:
                 w.insert(rng.randrange(len(w) + 1), rng.choice(['SP', 'TAB', 'NL', 'BL', 'ANSI', 'SQ', 'DQ', 'U', 'B', 'CR']))
             elif r < 0.65 and w:
